@@ -287,6 +287,16 @@ void do_op(W& w, const std::string& text)
                     p.set(v + 1);
                 });
                 done = true;
+            } else if (o.name == "mc") {
+                // a functor whose parameter is `const T&` but which still modifies the object (shallow const: what a
+                // pointer-like or mutable-member T allows): modify() promises exclusive access whatever the signature
+                w.modify([](const Pay& cp) {
+                    vpay::user_call();
+                    Pay& p = const_cast<Pay&>(cp);  // the wrapped object itself is not const
+                    long v = p.get();
+                    p.set(v + 1);
+                });
+                done = true;
             } else if (o.name == "mv") {
                 // the value-returning overload of modify
                 long seen = -1;
@@ -506,12 +516,14 @@ std::vector<std::string> ops_for(const std::string& wk, const std::string& mk, b
     if (wk == "og") {
         for (int k = 0; k < 3; ++k) {
             ops.push_back("md");
+            ops.push_back("mc");
             ops.push_back("rd");
             ops.push_back("mv");
             ops.push_back("rv");
         }
         if (faults) {
             ops.push_back("md!1");
+            ops.push_back("mc!1");
             ops.push_back("rd!1");
             ops.push_back("mv!1");
             ops.push_back("rv!1");
